@@ -7,6 +7,16 @@
 The output is a *token list* — exactly the information content of the emitted text once the
 literals are decoded (C05).  Atoms are opaque identities carrying the few facts the converter's
 decisions depend on.  No imports.
+
+Tied to the code on every run by the drift comparison of C01 (`conv.run`, Driver/ConvOps.lean and
+harness/c01.py): `convert` is run on the condition tree the implementation built and must emit the
+token skeleton of the real query, token by token.  Abstractions (normalised on the harness side,
+listed in the harness' ASSUMPTIONS): which template spells an atom (only *whether it has a negated
+twin that the not-equals context manager swaps in* is a fact of the atom: `negatable`); deferred
+query expressions; the `TypeError → NotImplementedError` paths (a backend without group expression
+or operator tokens).  `neg` is the *dynamic* extent of the not-equals context manager: it is entered
+for a field/value item with a NOT ancestor and stays in force for the sub-conditions built from
+that item (alternatives of an expanded value, patterns of a CIDR value).
 -/
 namespace SigmaVerif.Conv
 
@@ -26,6 +36,8 @@ inductive CT
   | atom (a : Nat) (i : AtomInfo)
   | exp (as : List (Nat × AtomInfo))       -- SigmaExpansion value: OR of alternatives, never in-list
   | cidr (as : List (Nat × AtomInfo))      -- CIDR value without native expression: OR of patterns via `convert_condition`
+  | nex (a : Nat) (i : AtomInfo)           -- `field|exists: false` in a backend without a not-exists expression: rendered from
+                                           -- inside the atom conversion as NOT over the exists-atom `a` (`convert_condition_field_eq_val_exists`)
   | not (c : CT)
   | and (cs : List CT)
   | or (cs : List CT)
@@ -56,13 +68,14 @@ def idxOf (p : List Op) (o : Op) : Option Nat := p.idxOf? o
 def cidrAsOr (k : Cfg) : Bool := !(k.orAsIn && k.inAllowWild)
 
 def CT.isAtomLike : CT → Bool
-  | .atom _ _ => true | .exp _ => true | .cidr _ => true | _ => false
+  | .atom _ _ => true | .exp _ => true | .cidr _ => true | .nex _ _ => true | _ => false
 
 /-- class index of the inner node as `compare_precedence` computes it (-1 ↦ `none`) -/
 def innerIdx (k : Cfg) : CT → Option Nat
   | .atom _ _ => none
   | .exp _ => idxOf k.prec .or
   | .cidr _ => if cidrAsOr k then idxOf k.prec .or else none
+  | .nex _ _ => idxOf k.prec .not      -- the special case of `compare_precedence` for negative existence tests
   | .not _ => idxOf k.prec .not
   | .and _ => idxOf k.prec .and
   | .or _ => idxOf k.prec .or
@@ -113,10 +126,15 @@ mutual
 /-- `convert_condition`; `neg` = some ancestor is a NOT (`is_parent_not`) -/
 def convert (k : Cfg) (neg : Bool) : CT → Option (List QTok)
   | .atom a i => some [atomTok k neg a i]
-  | .exp as => altsOr k false as       -- the alternatives are new objects without parents: never negated twins
+  | .exp as => altsOr k neg as         -- the alternatives are converted inside the dynamic extent of the
+                                      -- not-equals context manager entered for the expansion item itself
   | .cidr as =>
       let args := as.map (fun p => CT.atom p.1 p.2)
       if decideIn k true args then some [.inList true (atomIds args)] else altsOr k neg as
+  | .nex a i =>
+      -- `convert_condition_not(ConditionNOT([field exists]))`: the operand is a plain expression, so
+      -- no grouping; its parent is the fresh NOT, hence `neg = true` for the exists-atom
+      if k.notAsNotEq then some [atomTok k true a i] else some [.tnot, atomTok k true a i]
   | .not c =>
       match c with
       | .none => none
